@@ -872,6 +872,11 @@ func (x *W) qscan(a []string, seed int) string {
 		}
 	}
 	sort.Ints(sl)
+	if !fresh {
+		// the remainder of a partly iterated query depends on the iteration order, which
+		// is not an observable the properties fix: only its size is reported
+		return fmt.Sprintf("rem %d n=%d", len(sl), n)
+	}
 	return fmt.Sprintf("set %s n=%d", strIDs(sl), n)
 }
 
